@@ -551,3 +551,214 @@ GROUP_KEYS = ("oracle", "exc", "fmt_unique", "keep2", "hist_appended", "fault", 
 
 def reset_caches():
     _TWIN_CACHE.clear()
+
+
+# ---------------------------------------------------------------------------------------
+# Stub-fidelity probe for SimFS (informational): the same job, killed for real
+# ---------------------------------------------------------------------------------------
+def _real_kill_run(sc, root, k):
+    """Child process: runs the job on the real directory ``root`` and os._exit()s just before its
+    k-th file-system mutating call.  Mutating calls are counted the way SimFS counts them."""
+    import builtins
+    import os
+    import tempfile
+
+    count = [0]
+
+    def op():
+        if count[0] == k:
+            os._exit(17)
+        count[0] += 1
+
+    real_open, real_mkdir, real_replace, real_remove, real_ntf = builtins.open, os.mkdir, os.replace, os.remove, tempfile.NamedTemporaryFile
+
+    class Proxy:
+        def __init__(self, f):
+            self._f, self._dirty, self.name = f, False, f.name
+
+        def write(self, b):
+            self._dirty = True
+            return self._f.write(b)
+
+        def flush(self):
+            if self._dirty:
+                op()
+                self._dirty = False
+            self._f.flush()
+
+        def close(self):
+            if self._dirty:
+                op()
+                self._dirty = False
+            self._f.close()
+
+        def __enter__(self):
+            return self
+
+        def __exit__(self, *a):
+            self.close()
+
+        def __getattr__(self, n):
+            return getattr(self._f, n)
+
+    def open_(path, mode="r", *a, **kw):
+        if isinstance(path, str) and path.startswith(root) and any(c in mode for c in "wax"):
+            if not os.path.exists(path):
+                op()  # create
+            return Proxy(real_open(path, mode, *a, **kw))
+        return real_open(path, mode, *a, **kw)
+
+    def mkdir(path, *a, **kw):
+        if not os.path.isdir(path):  # os.makedirs(exist_ok=True) calls mkdir on existing directories too
+            op()
+        return real_mkdir(path, *a, **kw)
+
+    def replace(a, b, **kw):
+        op()
+        return real_replace(a, b, **kw)
+
+    def remove(p, **kw):
+        op()
+        return real_remove(p, **kw)
+
+    def ntf(mode="w+b", *a, dir=None, delete=True, **kw):
+        op()  # create
+        return Proxy(real_ntf(mode, *a, dir=dir, delete=delete, **kw))
+
+    builtins.open, os.mkdir, os.replace, os.remove, os.unlink, tempfile.NamedTemporaryFile = open_, mkdir, replace, remove, remove, ntf
+    import warnings
+
+    warnings.simplefilter("ignore")
+    real = copy.deepcopy(sc)
+    real["state_dir"] = sc["state_dir"].replace("/simfs", root, 1)
+    real["csv"] = sc["csv"].replace("/simfs", root, 1)
+    os.makedirs(os.path.dirname(real["csv"]), exist_ok=True) if False else None
+    d = os.path.dirname(real["csv"])
+    # the history file's directory is the user's to create (not a counted op)
+    parts = []
+    while not os.path.isdir(d):
+        parts.append(d)
+        d = os.path.dirname(d)
+    for p in reversed(parts):
+        real_mkdir(p)
+    res = RunResult()
+    job = ts.Job(real, res, fs=SimFS())  # the SimFS is unused: nothing is patched in this process
+    job.construct()
+    while job.ctrl.get_last_epoch() < job.n and job.ctrl.continue_training():
+        try:
+            if not job.one_epoch():
+                break
+        except ts.Refused:
+            break
+    os._exit(0)
+
+
+def _normalise_tree(files):
+    """{relative path: description}; temp files (random names on the real FS) are compared as a
+    multiset per directory: they are renamed tmp#1, tmp#2, ... in the order of their descriptions."""
+    import io as _io
+    import re
+
+    def describe(rel, data):
+        if len(data) == 0:
+            return ("empty",)
+        if rel.endswith(".csv"):
+            return ("csv", bytes(data).decode())
+        try:
+            obj = torch.load(_io.BytesIO(bytes(data)), weights_only=False)
+            return ("ckpt", repr(sorted((k, (v.tolist() if torch.is_tensor(v) else repr(v))) for k, v in obj.items())) if isinstance(obj, dict) else repr(obj))
+        except Exception:
+            return ("torn", len(data))
+
+    out, temps = {}, {}
+    for rel in sorted(files):
+        d = describe(rel, files[rel])
+        if re.search(r"(^|/)tmp[^/]*$", rel):
+            temps.setdefault(re.sub(r"tmp[^/]*$", "", rel), []).append(d)
+        else:
+            out[rel] = d
+    for dirpart, ds in temps.items():
+        for n, d in enumerate(sorted(ds, key=repr)):
+            out[f"{dirpart}tmp#{n + 1}"] = d
+    return out
+
+
+def fs_fidelity(seed, n_jobs=12):
+    """For a few jobs and EVERY crash index: the files SimFS says survive a crash before FS-op k
+    equal the files that really survive os._exit() before the k-th mutating call on tmpfs."""
+    import json
+    import os
+    import shutil
+    import time
+
+    from simkit.core import derive_rng
+    from simkit import runner
+
+    t0 = time.time()
+    rows = []
+    i = 0
+    while len(rows) < n_jobs and i < 400:
+        sc = ts.gen_training_scenario(derive_rng(seed, "fs-fidelity", i), max_epochs=4, crash=True)
+        i += 1
+        sc["bufsize"] = 1 << 16
+        sc["faults"] = []
+        if len(sc["metrics"]) < 2 or sc.get("offgrid"):
+            continue
+        K = run_twin(sc)["total_ops"]
+        agree = 0
+        first_diff = None
+        for k in range(K + 1):
+            # simulated
+            res = RunResult()
+            job = ts.Job(dict(sc, faults=[{"kind": "crash", "at": k}]), res)
+            w = ts.quiet()
+            try:
+                with patched(job.fs):
+                    job.fs.start_process({"kind": "crash", "at": k})
+                    try:
+                        job.construct()
+                        while job.ctrl.get_last_epoch() < job.n and job.ctrl.continue_training():
+                            if not job.one_epoch():
+                                break
+                    except ts.Refused:
+                        pass
+                    except BaseException:
+                        if not job.fs.dead:
+                            raise
+            finally:
+                w.__exit__(None, None, None)
+            sim = _normalise_tree({p[len("/simfs/"):]: d for p, d in job.fs.files.items()})
+            # real
+            root = f"/dev/shm/verif-fsfid-{os.getpid()}"
+            shutil.rmtree(root, ignore_errors=True)
+            os.makedirs(root)
+            pid = os.fork()
+            if pid == 0:
+                try:
+                    _real_kill_run(sc, root, k)
+                finally:
+                    os._exit(3)
+            _, status = os.waitpid(pid, 0)
+            code = os.waitstatus_to_exitcode(status)
+            realfiles = {}
+            for dp, _, fns in os.walk(root):
+                for fn in fns:
+                    full = os.path.join(dp, fn)
+                    with open(full, "rb") as f:
+                        realfiles[os.path.relpath(full, root)] = f.read()
+            shutil.rmtree(root, ignore_errors=True)
+            real = _normalise_tree(realfiles)
+            ok = sim == real and code in (0, 17)
+            agree += ok
+            if not ok and first_diff is None:
+                first_diff = {"crash_before_op": k, "child_exit": code, "only_sim": sorted(set(sim) - set(real))[:4], "only_real": sorted(set(real) - set(sim))[:4],
+                              "differ": [n for n in sim if n in real and sim[n] != real[n]][:4]}
+        rows.append({"job": sample_repr(sc), "crash_points": K + 1, "agree": agree, "first_difference": first_diff})
+        print(f"fs-fidelity job {len(rows)}: {agree}/{K + 1} crash points leave the same files in SimFS and on tmpfs")
+    rep = {"seed": seed, "rows": rows, "agree": sum(r["agree"] for r in rows), "total": sum(r["crash_points"] for r in rows), "wall_s": round(time.time() - t0, 1),
+           "note": "informational: surviving files after a simulated crash before FS-op k vs after a real os._exit() before the k-th mutating call (mkdir, create, buffered write at flush/close, replace, remove) on tmpfs; never affects any check's exit code"}
+    os.makedirs(runner.EVIDENCE, exist_ok=True)
+    with open(os.path.join(runner.EVIDENCE, "fs-fidelity.json"), "w") as f:
+        json.dump(rep, f, indent=1)
+    print(f"selftest-fs-fidelity: {rep['agree']}/{rep['total']} crash points agree ({rep['wall_s']}s)")
+    return 0
